@@ -26,6 +26,7 @@ PIPEX = CORE + MODS + [E + "vmock_upump.c", E + "simfd.c"]
 BLK = [R + "umem_alloc.c", R + "ubuf_block_mem.c", R + "ubuf_mem_common.c"]
 VS = [E + "vsched.c"]
 HARNESSES = {
+    "c06_queue": {"src": [H + "c06_queue.c"] + PIPEX + VS},
     "c12_request": {"src": [H + "c12_request.c"] + PIPEX},
     "c14_rechunk": {"src": [H + "c14_rechunk.c", T + "upipe_ts_sync.c", T + "upipe_ts_check.c", T + "upipe_ts_align.c"] + PIPEX},
     "pipex_cat": {"src": [H + "pipex_cat.c", T + "upipe_ts_sync.c", T + "upipe_ts_check.c", T + "upipe_ts_align.c"] + PIPEX},
@@ -424,5 +425,42 @@ CHECKS["C12"] = {
     "bounds": {"quick": "4 topologies x pool depth {0,2}: all sequences of up to 6 operations with 2 request types; 3 request types up to depth 5",
                "thorough": "depth 7 (2 request types) and 6 (3 request types)"},
     "assumptions": DEFAULT_ASSUME + ["a requester unregisters its requests before releasing the pipe it registered them on (ownership rule)"],
+    "job_timeout": {"quick": 300, "thorough": 1500},
+}
+
+
+def _c06_jobs(tier):
+    q = tier == "quick"
+    dl = 70 if q else 840
+    jobs = []
+    def j(script, qlen, loop, maxlen, bound):
+        jobs.append(("c06_queue", ["--script", script, "--qlen", qlen, "--loop", loop, "--maxlen", maxlen, "--bound", bound, "--deadline", dl]))
+    k = 3 if q else 4
+    for script in ("fiir", "fiiir", "fiFir", "fiixir", "fillir"):
+        for qlen in (1, 2):
+            j(script, qlen, 1, 0, k)
+    for script in ("fir", "fr", "fiir"):
+        j(script, 1, 0, 0, k + 1)          # producer without an event loop: a full queue may drop, never reorder / duplicate / hang
+    j("fiiir", 1, 1, 1, k)                  # max_length 1 on the sink
+    j("fiiiir", 3, 1, 0, k - 1)
+    j("fiFiir", 1, 1, 0, k - 1 if q else k)
+    if not q:
+        j("fiir", 1, 1, 0, 6)
+        j("fir", 1, 1, 0, 8)
+        j("fiiiir", 1, 1, 0, 4)
+        j("fiixiir", 2, 1, 0, 4)
+    return jobs
+
+CHECKS["C06"] = {
+    "engine": "vsched", "design_ref": "DESIGN.md section 3 C06",
+    "technique": "stateless preemption-bounded exploration of all interleavings of a producer thread owning the real queue sink and a consumer thread owning the real queue source, each with its own mock event loop over simulated descriptors; sequence/ordering, thread-confinement, deadlock and use-after-free (ASan) oracles per execution",
+    "level_text": "Producer scripts over set_flow_def / input / flush / loop step / release on the real upipe_qsink, consumer loop on the real upipe_qsrc with a recording sink; queue lengths 1-3, with and without a producer event loop, with max_length 0/1. Every interleaving with at most k preemptions at each atomic operation and each descriptor read/write of the shared queue and refcounts, every dispatch order of ready pumps. Per execution: the consumer receives the flow definition before data and each buffer exactly once in order (nothing lost when the producer has a loop; after a definition change the new definition precedes the next buffer), source_end comes after the last buffer, no deadlock / livelock, every event of the queue sink is thrown in the producer thread and every event of the queue source and every entry into the consumer's sink happens in the consumer thread, nothing is used after free (ASan) and everything is released at the end. Bounded, not a proof.",
+    "level_note": "Level L1 of DESIGN section 3/C06 (queue pair). The transfer and worker pipes (L2/L3) are not explored; ThreadSanitizer is not run under the scheduler (coroutines). Managers' internal atomics are not scheduling points (thread-safe services decided by C07/C09). Sequentially consistent interleavings.",
+    "jobs": {"quick": _c06_jobs("quick"), "thorough": _c06_jobs("thorough")},
+    "rule": "one execution = one complete schedule; states = scheduling points visited; non-trivial = executions in which the consumer's loop ran while the producer was still in its script",
+    "bounds": {"quick": "scripts fiir fiiir fiFir fiixir fillir x queue length 1-2, preemption bound 3; no-loop producer scripts bound 4; max_length 1; length 3 and fiFiir at bound 2",
+               "thorough": "bound 4 (5 for no-loop), plus fiir at bound 6 and fir at bound 8"},
+    "assumptions": DEFAULT_ASSUME + ["scheduling points: every uatomic_* on the queue / pipe refcounts, every simulated eventfd read/write, every loop iteration; sequentially consistent memory",
+                                     "a loop callback that changes nothing visible is treated as a retry and yields to the other thread (fair scheduling)"],
     "job_timeout": {"quick": 300, "thorough": 1500},
 }
